@@ -22,7 +22,8 @@ of a thread that the model has not notified is replayed as a spurious wake-up an
 
 Reply: `ok <events> <spurious>` or `bad <index> <kind> <reason>`.
 -/
-namespace Driver
+namespace Driver.HQueue
+open Driver
 open Ragc.Queue
 
 structure QObs where
@@ -128,4 +129,8 @@ def handleQueue : List String → Option String
     some (replayQ cap (init n) 0 0 tr)
   | _ => none
 
+end Driver.HQueue
+
+namespace Driver
+export HQueue (handleQueue)
 end Driver
